@@ -1,8 +1,10 @@
 package simrt
 
 import (
+	"os"
 	"reflect"
 	"runtime"
+	"strconv"
 	"sync"
 	"unsafe"
 )
@@ -422,6 +424,9 @@ func GOMAXPROCS(n int) int {
 	if n < 1 && isActive() {
 		return simProcsNow()
 	}
+	if n < 1 && initProcs > 0 {
+		return initProcs
+	}
 	return runtime.GOMAXPROCS(n)
 }
 
@@ -430,8 +435,22 @@ func NumCPU() int {
 	if isActive() {
 		return simProcsNow()
 	}
+	if initProcs > 0 {
+		return initProcs
+	}
 	return runtime.NumCPU()
 }
+
+// initProcs is what a query OUTSIDE of a run answers: package-level initialisers and init
+// functions of the library (`var workers = runtime.GOMAXPROCS(0)`) run before any run
+// exists, in a process that really has one processor. The driver gives every simulator
+// process its own value (VERIF_INIT_PROCS), so that a worker count fixed at start-up is
+// exercised at 1, 2, 4, 8 and 16 too. This package is initialised before the packages of
+// the library, which import it.
+var initProcs = func() int {
+	n, _ := strconv.Atoi(os.Getenv("VERIF_INIT_PROCS"))
+	return n
+}()
 
 //go:norace
 func simProcsNow() int { return simProcs }
